@@ -24,8 +24,8 @@ import (
 
 func init() {
 	core.Register(&core.Check{
-		ID: "C23",
-		Rule: "cases: Duration: every string up to length 5 (quick) / 7 (thorough) over the alphabet +-.0159s and space, composed sign/int/frac/suffix strings around the 315576000000 s limit and 9/10 fraction digits, and boundary x boundary + PRNG (seconds, nanos) pairs marshalled and parsed back; Timestamp: template-mutated RFC 3339 strings (field widths, separators, case, 0-12 fraction digits with . or , offsets, month/day/leap-year limits, range edges moved by offsets) and (seconds, nanos) pairs; FieldMask: path lists over a small alphabet both directions; wrappers, Struct/Value/ListValue, Empty and Any: JSON form of the output; distinct = distinct strings or pairs; non-trivial = string longer than one character / non-zero pair",
+		ID:     "C23",
+		Rule:   "cases: Duration: every string up to length 5 (quick) / 7 (thorough) over the alphabet +-.0159s and space, composed sign/int/frac/suffix strings around the 315576000000 s limit and 9/10 fraction digits, and boundary x boundary + PRNG (seconds, nanos) pairs marshalled and parsed back; Timestamp: template-mutated RFC 3339 strings (field widths, separators, case, 0-12 fraction digits with . or , offsets, month/day/leap-year limits, range edges moved by offsets) and (seconds, nanos) pairs; FieldMask: path lists over a small alphabet both directions; wrappers, Struct/Value/ListValue, Empty and Any: JSON form of the output; distinct = distinct strings or pairs; non-trivial = string longer than one character / non-zero pair",
 		Assume: []string{"harness/model/wktref.go: Duration/Timestamp/FieldMask recognisers written from the documented grammars (civil-date arithmetic, no use of package time)", "encoding/json for reading outputs"},
 		Batches: func(tier string) []core.Batch {
 			var bs []core.Batch
